@@ -102,6 +102,15 @@ int main() {
           }
           if (ok) m.RemoveIfFolded((int)e);
         }
+      } else if (op == "cleanup" || op == "dedupeedges" || op == "splitpinched") {
+        // precondition of CleanupTopology: IsManifold (even-manifold, all indices valid)
+        ok = m.IsManifold();
+        for (size_t e = 0; e < m.halfedge_.size() && ok; ++e) ok = m.halfedge_.Start(e) < 0 || inV(m.halfedge_.Start(e));
+        if (ok) {
+          if (op == "cleanup") m.CleanupTopology();
+          else if (op == "dedupeedges") m.DedupeEdges();
+          else m.SplitPinchedVerts();
+        }
       } else if (op == "fliptris") {
         ok = m.halfedge_.size() % 3 == 0;
         if (ok) for (size_t tri = 0; tri < m.halfedge_.size() / 3; ++tri) FlipTris{m.halfedge_}((int)tri);
